@@ -63,8 +63,19 @@ static void c18_run_env(void) {
   c18_run_choice();
 #endif
 }
+/* optional reference run(s) without failure, executed once before the failure point is chosen (-DC18_PROLOGUE in the harness);
+ * c18_k0 = requests made by it: k counts from there */
+static int c18_k0;
+#ifdef C18_PROLOGUE
+static void c18_prologue(void);
+#endif
 void harness(void) {
   vm_alloc_install();
+#ifdef C18_PROLOGUE
+  vm_fail_at = 0; vm_fail_from = 0;
+  c18_prologue();
+  c18_k0 = vm_nalloc;
+#endif
 #if defined(NOFAIL)
   vm_fail_at = 0; vm_fail_from = 0;                 /* C20: success paths w.r.t. memory */
   c18_run_env();
@@ -79,12 +90,12 @@ void harness(void) {
 #  endif
   if (k == 0) VASSUME(from == 0);
 #  ifdef MERGED    /* one symbolic run (cheaper for scripts with long straight-line parts, e.g. the hash table) */
-  vm_fail_at = k; vm_fail_from = from;
+  vm_fail_at = k ? c18_k0 + k : 0; vm_fail_from = from;
   c18_run_env();
 #  else
   for (int kk = K_LO; kk <= K_HI; kk++)             /* loop harness.1 */
     for (int m = 0; m < 2; m++)                     /* loop harness.0 */
-      if (k == kk && from == m) { vm_fail_at = kk; vm_fail_from = m; c18_run_env(); return; }
+      if (k == kk && from == m) { vm_fail_at = kk ? c18_k0 + kk : 0; vm_fail_from = m; c18_run_env(); return; }
 #  endif
 #endif
 }
@@ -113,18 +124,18 @@ static void c18_end2(int nsucc, int lastk) {
 #if K_LO == 0
   if (vm_failed == 0) VWITNESS("run without allocation failure");
 #  ifndef ENV_FIRST   /* with a forced environment failure the number of requests differs (error reports) */
-  if (vm_failed == 0 && vm_nalloc == nsucc) VWITNESS("success path makes the expected number of requests");
+  if (vm_failed == 0 && vm_nalloc - c18_k0 == nsucc) VWITNESS("success path makes the expected number of requests");
 #  endif
 #endif
 #ifndef NOFAIL
   if (vm_failed > 0) VWITNESS("run with an injected allocation failure");
 #  if K_HI >= KMAX && !defined(ENV_FIRST)
-  if (vm_failed > 0 && vm_fail_at == lastk) VWITNESS("k = last request of the script fails");
+  if (vm_failed > 0 && vm_fail_at - c18_k0 == lastk) VWITNESS("k = last request of the script fails");
 #  endif
 #  if K_LO <= 1
-  if (vm_failed > 0 && vm_fail_at == 1) VWITNESS("k = first request of the script fails");
+  if (vm_failed > 0 && vm_fail_at - c18_k0 == 1) VWITNESS("k = first request of the script fails");
 #  else
-  if (vm_failed > 0 && vm_fail_at == K_LO) VWITNESS("k = first value of this query's range fails");
+  if (vm_failed > 0 && vm_fail_at - c18_k0 == K_LO) VWITNESS("k = first value of this query's range fails");
 #  endif
 #  if !defined(FAILMODE_ONCE) && !defined(C18_STOPS_AT_FIRST_FAILURE)
   if (vm_failed > 1) VWITNESS("from-k-on mode: several requests failed");
